@@ -1310,6 +1310,12 @@ class LineEater:
 
 
 class LineParser(LineEater):
+    def error(self, msg):
+        """Report a malformed line, at the last token seen (if any)."""
+        token = self._current_token or self.token
+        loc = token.loc if token is not None else None
+        raise CompilerError(msg, loc)
+
     def consume(self, typ=None):
         if not typ:
             if not self.peak:
